@@ -381,6 +381,7 @@ class C08Value(ParserHarness):
 @register
 class C02ValueTotal(C08Value):
     ascii_only = False
+    bound_is_hang = True
     native = ('data', 'n_c02_value_total')
 
     def run(self, ex):
@@ -750,14 +751,17 @@ def ref_integer_form(ex, bs):
 @register
 class C20Integer(ParserHarness):
     ty = 'u8'
+    first = None         # fix the first byte (e.g. 0x30: only the radix-prefixed / octal forms, which are cheap for long texts)
     native = ('data', 'n_c20_integer')
 
     def run(self, ex):
-        install_generic_T(ex.models, self.ty)
+        ex.tbind = [self.ty]
         f = find_fn(ex.prog, '::parse_integer', 'chardata.rs')
         self.bs = sym_bytes('b', self.n)
         for b in self.bs:
             ex.assume(z3.ULT(b, 0x80))
+        if self.first is not None and self.n > 0:
+            ex.assume(self.bs[0] == self.first)
         if self.part is not None:
             i, k = self.part
             if self.n == 0:
@@ -1097,3 +1101,39 @@ class C18Names(E2Harness):
             same = [bytes_eq(list(self.bs), [bv(ch, 8) for ch in t]) for t in tab if len(t) == self.n]
             if same:
                 self.require(ex, znot(zor(*same)), 'from_bytes rejected the text of an item')
+
+
+@register
+class C20FloatSpecial(E2Harness):
+    """format -> parse for the non-finite floats (NaN, +inf, -inf): serialize_internal then parse_float returns an equal value"""
+    native = ('data', 'n_c20_float_special')
+
+    def run(self, ex):
+        f_ser = find_fn(ex.prog, '::serialize_internal', 'chardata.rs')
+        f_pf = find_fn(ex.prog, '::parse_float', 'chardata.rs')
+        self.bits = z3.BitVec('fbits', 64)
+        v = z3.fpBVToFP(self.bits, z3.Float64())
+        ex.assume(z3.Or(z3.fpIsNaN(v), z3.fpIsInf(v)))
+        out = Str()
+        ex.call(f_ser, [Ref(Cell(Agg('CharacterData', 'Float', [F(v)]))), Ref(Cell(out))])
+        r = ex.call(f_pf, [Ref(Cell(cdata_string(list(out.b))))])
+        return v, out, r
+
+    def replay_vals(self, m):
+        return [le_bytes(m.eval(self.bits, model_completion=True).as_long(), 8)]
+
+    def describe(self, m):
+        return 'f64 bits %016x' % m.eval(self.bits, model_completion=True).as_long()
+
+    def prop(self, out, ex):
+        if out[0] == 'panic':
+            self.require(ex, False, 'panicked: ' + out[1])
+            return
+        v, txt, r = out[1]
+        self.cover('non-finite value formatted')
+        if r.variant != 'Some':
+            self.require(ex, False, 'the text written for a float is not read back as a number')
+            return
+        g = r.fields[0].e
+        same = z3.Or(z3.And(z3.fpIsNaN(v), z3.fpIsNaN(g)), z3.fpEQ(v, g))
+        self.require(ex, same, 'format -> parse of a non-finite float returns a different value')
